@@ -72,7 +72,7 @@ class SpiMasterHarness(Harness):
             names = {c.name: k for k, c in enumerate(self.dut.bank.simple_csrs)}
             self.adr = {}
             for need in ("control", "status", "mosi", "miso", "cs", "loopback", "clk_divider"):
-                hits = [a for n, a in names.items() if n == need or n.endswith("_" + need)]
+                hits = [a for n, a in names.items() if n.rstrip("0123456789") in (need, "spi_" + need)]
                 if len(hits) != 1:
                     raise MachineryError(f"SPIMaster CSR {need} not found in {sorted(names)}")
                 self.adr[need] = hits[0]
